@@ -16,6 +16,12 @@ for mp in sorted(glob.glob(os.path.join(ROOT, 'seeded', '*', 'meta.json'))):
         d = last['diagnostic'][0]
         i = d.find('"info"')
         diag = d[i:i + 140].replace('|', '/') if i >= 0 else ''
+    own = [r for r in runs if r.get('check', m['property']) == m['property']]
+    oth = [r for r in runs if r.get('check', m['property']) != m['property'] and r.get('exit') == 1]
+    if own and own[-1].get('exit') != 1 and oth:      # not a violation of the property it was filed under: the other property's check catches it
+        last = oth[-1]
+    elif own:
+        last = own[-1]
     by = '' if last.get('check', m['property']) == m['property'] else ' by the %s check' % last['check']
     rows.append((m['id'], m['property'], 'yes' if m.get('confirmed') else 'NO', title.replace('|', '/'), st(first), '%s%s (%s, %ss)' % (st(last), by, last.get('tier', ''), last.get('wall_s', '')), len(runs), diag))
 with open(os.path.join(ROOT, 'seeded', 'README.md'), 'w') as f:
